@@ -1,12 +1,254 @@
-//! C12 (stub, replaced below)
+//! C12: the module loader and namespace machinery against the reference model of
+//! modgen.rs. The reader seam is the only way the compiler learns what files exist,
+//! so its call history is a complete record of what was loaded.
+
+use crate::exec::{execute, Outcome, ReadRes, ResultObs};
 use crate::json::J;
+use crate::modgen::{self, Project};
 use crate::props::{Stats, Violation};
+use crate::rng::Rng;
 use crate::scenario::Concrete;
 use crate::worker::{Env, Found};
+use std::collections::BTreeSet;
 
-pub fn run_one(_env: &Env, _index: u64, _seed: u64, _stats: &mut Stats) -> (Vec<Found>, u64, u64) {
-    (Vec::new(), 0, 0)
+fn v(clause: &str, class: &str, detail: String) -> Violation {
+    Violation { prop: "C12".into(), clause: clause.into(), class: class.into(), detail }
 }
-pub fn reevaluate(_c: &Concrete, _extra: &J) -> Vec<Violation> {
-    Vec::new()
+
+fn first_error(out: &Outcome) -> String {
+    match &out.result {
+        ResultObs::Err(es) => es
+            .first()
+            .map(|e| format!("{} {}:{} {}", e.variant, e.file, e.line, e.message.lines().next().unwrap_or("")))
+            .unwrap_or_default(),
+        ResultObs::Panicked => format!("panic {:?}", out.panic),
+        ResultObs::Ok => "ok".into(),
+    }
+}
+
+fn error_class(out: &Outcome) -> String {
+    match &out.result {
+        ResultObs::Err(es) => es
+            .first()
+            .map(|e| format!("{}:{}", e.variant, crate::exec::strip_variable_parts(&e.message)))
+            .unwrap_or_default(),
+        ResultObs::Panicked => "panic".into(),
+        ResultObs::Ok => "ok".into(),
+    }
+}
+
+pub struct Expect {
+    pub expect_ok: bool,
+    pub twist: Option<String>,
+    pub expect_reads: BTreeSet<String>,
+    pub removed: Vec<String>,
+    pub flattened: Option<String>,
+}
+
+impl Expect {
+    pub fn from_json(j: &J) -> Expect {
+        let strs = |k: &str| -> Vec<String> {
+            j.get(k).and_then(|a| a.as_arr()).map(|a| a.iter().filter_map(|x| x.as_str().map(|s| s.to_string())).collect()).unwrap_or_default()
+        };
+        Expect {
+            expect_ok: j.bool_of("expect_ok"),
+            twist: j.get("twist").and_then(|t| t.as_str()).map(|s| s.to_string()),
+            expect_reads: strs("expect_reads").into_iter().collect(),
+            removed: strs("removed"),
+            flattened: j.get("flattened").and_then(|t| t.as_str()).map(|s| s.to_string()),
+        }
+    }
+}
+
+pub fn check(c: &Concrete, ex: &Expect) -> (Vec<Violation>, Outcome, Option<Outcome>) {
+    let out = execute(c);
+    let mut vs = Vec::new();
+
+    // 7. termination / no crash
+    if let Some(p) = &out.panic {
+        vs.push(v("panic", &p.key(), format!("loading the project panicked at {}:{}: {}", p.file, p.line, p.msg)));
+        return (vs, out, None);
+    }
+    // 1. load-once
+    let mut seen = BTreeSet::new();
+    for (p, _) in &out.reads {
+        if !seen.insert(p.clone()) {
+            vs.push(v("loaded-twice", "-", format!("{} was requested from the reader twice", p)));
+            break;
+        }
+    }
+    // 2./3. exactly the import closure is loaded, through the documented path mapping
+    let got: BTreeSet<String> = out.reads.iter().map(|(p, _)| p.clone()).collect();
+    if got != ex.expect_reads {
+        let missing: Vec<&String> = ex.expect_reads.difference(&got).collect();
+        let extra: Vec<&String> = got.difference(&ex.expect_reads).collect();
+        let class = if !extra.is_empty() && !missing.is_empty() {
+            "wrong-path"
+        } else if !extra.is_empty() {
+            "extra-file"
+        } else {
+            "file-not-loaded"
+        };
+        vs.push(v(
+            "load-set",
+            class,
+            format!("the documented import closure is {:?}; the loader requested {:?} (not requested: {:?}; unexpected: {:?})", ex.expect_reads, got, missing, extra),
+        ));
+    }
+    // 4./6. positive projects are accepted: every name binds to the module the documentation says
+    if ex.expect_ok && !matches!(out.result, ResultObs::Ok) {
+        vs.push(v(
+            "valid-project-rejected",
+            &error_class(&out),
+            format!("a project that uses only documented import forms and imported names was rejected: {}", first_error(&out)),
+        ));
+    }
+    // 5. negative twists are rejected
+    if !ex.expect_ok && matches!(out.result, ResultObs::Ok) {
+        vs.push(v(
+            "invalid-reference-accepted",
+            ex.twist.as_deref().unwrap_or("?"),
+            format!("the project contains a reference that must not resolve ({}), but it was accepted", ex.twist.as_deref().unwrap_or("?")),
+        ));
+    }
+    if let ResultObs::Err(es) = &out.result {
+        for r in &ex.removed {
+            if !es.iter().any(|e| e.variant == "FileNotFound" && e.file == *r) {
+                vs.push(v("missing-file-not-reported", "-", format!("{} is imported and missing, but no FileNotFound error names it", r)));
+            }
+        }
+    }
+    // 4b. acceptance is invariant under splitting: the same globals in one file
+    let mut flat_out = None;
+    if let Some(flat) = &ex.flattened {
+        let mut fc = Concrete::new(&c.main);
+        fc.files.insert(c.main.clone(), flat.clone());
+        fc.no_std = c.no_std;
+        fc.hash_seed = c.hash_seed;
+        let fo = execute(&fc);
+        if ex.expect_ok && matches!(out.result, ResultObs::Ok) != matches!(fo.result, ResultObs::Ok) {
+            vs.push(v(
+                "split-changes-acceptance",
+                &error_class(&fo),
+                format!("multi-file project: {}; the same globals in one file: {}", first_error(&out), first_error(&fo)),
+            ));
+        }
+        flat_out = Some(fo);
+    }
+    (vs, out, flat_out)
+}
+
+pub fn reevaluate(c: &Concrete, extra: &J) -> Vec<Violation> {
+    check(c, &Expect::from_json(extra)).0
+}
+
+fn self_check(p: &Project) -> Option<String> {
+    // the generator's path specs must mean, by the documented rules, the module they were generated for
+    for m in &p.modules {
+        for i in &m.imports {
+            let resolved = modgen::model_resolve(&m.rel, &i.spec);
+            if resolved != p.modules[i.target].rel {
+                return Some(format!("{}: `{}` resolves to {} by the model but was generated for {}", m.rel, i.spec, resolved, p.modules[i.target].rel));
+            }
+        }
+    }
+    None
+}
+
+pub fn build(seed: u64) -> (Project, Concrete) {
+    let p = modgen::generate(seed);
+    let mut c = p.concrete.clone();
+    let mut fl = Rng::sub(seed, "c12-flags");
+    c.no_std = fl.chance(1, 4);
+    c.hash_seed = fl.next();
+    (p, c)
+}
+
+pub fn run_one(_env: &Env, index: u64, seed: u64, stats: &mut Stats) -> (Vec<Found>, u64, u64) {
+    let (p, c) = build(seed);
+    if let Some(e) = self_check(&p) {
+        stats.inc("harness.c12_generator_self_check_failed");
+        eprintln!("sylt-sim: C12 generator self-check failed at index {}: {}", index, e);
+    }
+    let ex = Expect::from_json(&p.extra_json());
+    let (vs, out, flat) = check(&c, &ex);
+
+    stats.inc("runs");
+    stats.inc(&format!("c12.modules.{}", p.modules.len()));
+    for f in &p.features {
+        stats.inc(&format!("c12.{}", f));
+    }
+    if let Some(t) = &p.twist {
+        stats.inc(&format!("c12.twist.{}", t));
+        if matches!(out.result, ResultObs::Err(_)) {
+            stats.inc("c12.twist_rejected");
+        }
+    } else if matches!(out.result, ResultObs::Ok) {
+        stats.inc("c12.positive_accepted");
+    }
+    if flat.as_ref().map(|f| matches!(f.result, ResultObs::Ok)).unwrap_or(false) {
+        stats.inc("c12.flattened_accepted");
+    }
+    if c.no_std {
+        stats.inc("flag.no_std");
+    }
+    stats.inc(&format!("phase.{}", out.phase()));
+    match &out.result {
+        ResultObs::Ok => stats.inc("result.ok"),
+        ResultObs::Err(_) => stats.inc("result.err"),
+        ResultObs::Panicked => stats.inc("result.panic"),
+    }
+    stats.add("events.read", out.reads.len() as u64);
+    stats.add("events.write", out.writes.len() as u64);
+    stats.add("maps_built", out.maps_built);
+    if out.reads.iter().any(|(_, r)| *r == ReadRes::NotFound) {
+        stats.inc("fault_fired.R1-missing-file");
+    }
+    if c.files.keys().any(|k| k.ends_with("unused_decoy.sy")) {
+        stats.inc("c12.decoy_present_and_never_read");
+    }
+    let edges: usize = p.modules.iter().map(|m| m.imports.len()).sum();
+    let sig = crate::rng::fnv64(
+        format!(
+            "{}|{:?}|{:?}|{}|{}|{}",
+            p.modules.len(),
+            p.features,
+            p.twist,
+            out.reads.len(),
+            edges,
+            out.phase()
+        )
+        .as_bytes(),
+    );
+    stats.signatures.insert(sig);
+    if (out.reads.len() >= 2 && edges >= 1) || p.twist.is_some() {
+        stats.nontrivial.insert(c.fnv());
+    }
+    // samples: one positive, one with a twist
+    let want = if p.twist.is_some() { "sampled.twist" } else if p.modules.len() >= 3 { "sampled.positive" } else { "" };
+    if !want.is_empty() && stats.counters.get(want).copied().unwrap_or(0) == 0 && c.total_bytes() < 1500 {
+        stats.inc(want);
+        let mut files = J::obj();
+        for (k, t) in &c.files {
+            files.put(k, J::s(t));
+        }
+        stats.samples.push(
+            J::obj()
+                .set("index", J::u(index))
+                .set("run_seed", J::u(seed))
+                .set("files", files)
+                .set("twist", p.twist.as_ref().map(|t| J::s(t)).unwrap_or(J::Null))
+                .set("model_expected_reads", crate::json::arr_str(p.expect_reads.iter()))
+                .set("model_expected_verdict", J::s(if p.expect_ok { "accepted" } else { "rejected" }))
+                .set("history", out.events_json(4)),
+        );
+    }
+
+    let extra = p.extra_json();
+    let events = out.events_json(6);
+    let found = vs
+        .into_iter()
+        .map(|v| Found { violation: v, concrete: c.clone(), scenario: None, extra: extra.clone(), outcome_events: events.clone() })
+        .collect();
+    (found, c.fnv(), out.history_fnv())
 }
